@@ -588,6 +588,12 @@ func (rs *runState) runC16Layout(idx int, lay c16Layout) *violationT {
 	files[pkgDir+"embedgrp_co.go"] = coHeader("package " + pkgName + "\n\nimport (\n\t_ \"embed\"\n\n\t. \"github.com/goghcrow/go-co\"\n)\n\nvar (\n\t// GroupedData is filled in by the go command.\n\t//go:embed embed_data.txt\n\tGroupedData string\n\n\t//go:embed embed_data.txt\n\tGroupedBytes []byte\n)\n\n// GroupedWords is a generator literal.\nvar GroupedWords = func(n int) Iter[string] {\n\tfor i := 0; i < n; i++ {\n\t\tYield(GroupedData)\n\t}\n\treturn nil\n}\n")
 	files[pkgDir+"embedgrp_test.go"] = "package " + pkgName + "\n\nimport \"testing\"\n\nfunc TestGroupedData(t *testing.T) {\n\tif GroupedData != \"embedded payload\\n\" || string(GroupedBytes) != GroupedData {\n\t\tt.Fatalf(\"GroupedData = %q, GroupedBytes = %q: a go:embed directive inside a declaration group was lost\", GroupedData, GroupedBytes)\n\t}\n\tn := 0\n\tfor it := GroupedWords(2); it.MoveNext(); n++ {\n\t}\n\tif n != 2 {\n\t\tt.Fatalf(\"GroupedWords yielded %d values\", n)\n\t}\n}\n"
 	expected[pkgDir+"embedgrp.go"] = true
+	// types declared in a PLAIN sibling file, used by a co file with type arguments / literal keys that are the file's only
+	// use of an import (the optimise stage type-checks the derived files: what it cannot resolve must not cost an import)
+	files[pkgDir+"plaintypes.go"] = "package " + pkgName + "\n\ntype Boxed[T any] struct{ V T }\n\ntype NameMap map[int]string\n"
+	files[pkgDir+"plainuse_co.go"] = coHeader("package " + pkgName + "\n\nimport (\n\t\"time\"\n\t\"unicode\"\n\n\t. \"github.com/goghcrow/go-co\"\n)\n\nfunc Durations(g Boxed[time.Duration]) Iter[int] {\n\tYield(int(g.V))\n\treturn nil\n}\n\nvar Table = NameMap{unicode.MaxASCII: \"x\"}\n")
+	files[pkgDir+"plainuse_test.go"] = "package " + pkgName + "\n\nimport (\n\t\"testing\"\n\t\"time\"\n)\n\nfunc TestPlainTypes(t *testing.T) {\n\tn := 0\n\tfor it := Durations(Boxed[time.Duration]{V: 3}); it.MoveNext(); n += it.Current() {\n\t}\n\tif n != 3 || Table[127] != \"x\" {\n\t\tt.Fatalf(\"n = %d, Table = %v\", n, Table)\n\t}\n}\n"
+	expected[pkgDir+"plainuse.go"] = true
 	// an external test package (package <pkg>_test) with a generator of its own and a closure over a function of the
 	// package under test
 	importPath := mod
